@@ -4,6 +4,7 @@ Every entry is an *assumption* about NumPy (trusted base, named in the evidence 
 ctx.use_axiom); worker/conformance.py checks the executable reading of the same statements
 against the installed NumPy on small exhaustive domains.
 """
+import fractions
 import z3
 
 from .ctx import Unsupported, PathAbort
@@ -50,6 +51,21 @@ class Sel(object):
         self.fn = fn
         self.adv = adv
         self.mask = mask
+
+
+def memo_fn(f):
+    """content function with a per-index memo (the index terms are kept alive so that their ids stay unique)"""
+    cache = {}
+
+    def g(*idx):
+        key = tuple(x.get_id() if hasattr(x, 'get_id') else x for x in idx)
+        hit = cache.get(key)
+        if hit is not None:
+            return hit[1]
+        r = f(*idx)
+        cache[key] = (idx, r)
+        return r
+    return g
 
 
 def mentions_new_symbol(e, before, after):
@@ -553,12 +569,58 @@ class NumpyModel(object):
             raise Unsupported('not on an array')
         raise Unsupported('unary %s on %s array' % (op, a.dtype))
 
+    def concrete_values(self, a, cap=64):
+        """python numbers of a small array with concrete shape whose entries are numerals, else None"""
+        if a.ndim != 1 or not isinstance(a.shape[0], int) or a.shape[0] > cap or a.dtype not in ('int', 'uint', 'float'):
+            return None
+        out = []
+        for i in range(a.shape[0]):
+            e = z3.simplify(a.fn(z3.IntVal(i)))
+            if z3.is_int_value(e):
+                out.append(e.as_long())
+            elif z3.is_rational_value(e):
+                out.append(fractions.Fraction(e.numerator_as_long(), e.denominator_as_long()))
+            else:
+                return None
+        return out
+
     def ufunc1(self, name, a):
         from . import interp as M
         I = self.I
         a = self.as_array(a)
         af = a.fn
         I.real_axioms()
+        if name in ('log2', 'ceil', 'floor'):
+            vals = self.concrete_values(a)
+            if vals is not None and (name != 'log2' or all(v > 0 for v in vals)):
+                # numerals: evaluated (log2 exactly for powers of two, otherwise only when followed by ceil/floor of a value
+                # that is not within 1e-9 of an integer -- bit widths)
+                import math as _math
+                res = []
+                ok = True
+                for v in vals:
+                    if name == 'log2':
+                        if isinstance(v, int) and v & (v - 1) == 0:
+                            res.append(z3.RealVal(v.bit_length() - 1))
+                        else:
+                            lg = _math.log2(float(v))
+                            if abs(lg - round(lg)) < 1e-9:
+                                ok = False
+                                break
+                            # kept symbolic-free but inexact: a rational enclosure is enough for the ceil/floor that follows
+                            res.append(z3.RealVal(str(fractions.Fraction(lg).limit_denominator(10 ** 9))))
+                    else:
+                        fv = _math.ceil(v) if name == 'ceil' else _math.floor(v)
+                        res.append(z3.RealVal(fv))
+                if ok:
+                    self.ax('A-REAL:%s of numerals evaluated (log2 of a non-power of two as a rational enclosure, only used under ceil/floor)' % name)
+
+                    def cfn(i, res=res):
+                        e = res[-1]
+                        for k_ in range(len(res) - 2, -1, -1):
+                            e = z3.If(i == k_, res[k_], e)
+                        return e
+                    return self.new([len(res)], 'float', cfn)
         f = {'log10': M.log10, 'log': M.flog, 'exp': M.fexp, 'sqrt': M.fsqrt, 'cos': M.fcos, 'sin': M.fsin,
              'log2': M.flog2}.get(name)
         if name == 'abs':
@@ -1103,7 +1165,7 @@ class NumpyModel(object):
             def fn(*idx, old=old, upd=upd):
                 c, v = upd(*idx)
                 return z3.If(c, v, old(*idx))
-            arr._fn = fn
+            arr._fn = memo_fn(fn)       # a chain of k updates is evaluated once per index, not 2^k times
             return
         if arr.from_base is None:
             raise Unsupported('write through this kind of view (A-VIEW)')
@@ -1905,6 +1967,17 @@ class NumpyModel(object):
         def _cumsum(I_, a, k):
             return self.cumsum(a[0])
 
+        @reg('roll')
+        def _roll(I_, a, k):
+            v = self.as_array(a[0])
+            sh = k.get('shift', a[1] if len(a) > 1 else None)
+            vals = self.concrete_values(v)
+            if vals is None or not isinstance(sh, int) or not all(isinstance(x, int) for x in vals):
+                raise Unsupported('np.roll of a symbolic array')
+            n_ = len(vals)
+            rolled = [vals[(i - sh) % n_] for i in range(n_)] if n_ else []
+            return self.as_array(stamp(Seq('list', rolled)))
+
         @reg('nonzero')
         def _nonzero(I_, a, k):
             b = self.as_array(a[0])
@@ -1964,6 +2037,8 @@ class NumpyModel(object):
                         return Opaque('dtype', ('float', 8 * nb, big))
                     raise_py('TypeError', 'data type %r not understood' % d)
             dt, bits = self.dtype_of(d)
+            if dt == 'uint' and bits == 8:
+                return Opaque('dtype', ('uint', 8, True))       # one byte: no byte order
             return Opaque('dtype', (dt, bits))
 
         @reg('memmap')
@@ -2132,6 +2207,13 @@ class NumpyModel(object):
         v = self.as_array(v)
         if v.ndim != 1:
             raise Unsupported('np.cumsum of a non 1-d array')
+        vals = self.concrete_values(v)
+        if vals is not None and all(isinstance(x, int) for x in vals):
+            acc, tot = [], 0
+            for x in vals:
+                tot += x
+                acc.append(tot)
+            return self.as_array(__import__('pyvc.interp', fromlist=['stamp']).stamp(Seq('list', acc)))
         M = self.dim_z(v.shape[0])
         dt = 'float' if v.dtype == 'float' else 'int'
         C = I.ctx.fresh_fn('cumsum', z3.IntSort(), z3.RealSort() if dt == 'float' else z3.IntSort())
